@@ -37,7 +37,7 @@ def gen_cases(seed, tier):
     n = 500 if tier == "quick" else 5000
     cases = []
     for i in range(n):
-        wk = str(rng.choice(["prim", "prim", "prim", "flagged", "product", "moved", "setvol", "density_bool", "history", "polyhole"]))
+        wk = str(rng.choice(["prim", "prim", "prim", "flagged", "product", "moved", "setvol", "density_bool", "history", "polyhole", "sliver"]))
         k = int(rng.choice([0, 0, 1, 2, 3, 5, 8]))
         dim = int(rng.choice([1, 2, 2, 2, 3]))
         c = {"wk": wk, "seed": int(rng.integers(0, 2 ** 31))}
@@ -53,6 +53,8 @@ def gen_cases(seed, tier):
                 else _indep_product(rng, int(rng.choice([0, 0, 1])))
         elif wk == "polyhole":
             dom = _polyhole(rng)
+        elif wk == "sliver":
+            dom = _sliver(rng, k)
         elif wk == "product":
             dom = _indep_product(rng, k)
         elif wk == "moved":
@@ -74,6 +76,28 @@ def _flagged(rng, k, dim):
         if s.get("flag"):
             return dom
     return dom
+
+
+def _sliver(rng, k):
+    """strongly sheared / thin parallelograms and triangles (angle between the edges 0.5 - 8 degrees), constant or with a
+    shear that depends on the parameter; only volume() is judged, with a tolerance that follows float32 cancellation"""
+    kind = str(rng.choice(["parallelogram", "triangle"]))
+    o = rng.uniform(-1, 1, 2)
+    l1, l2 = rng.uniform(1, 4), rng.uniform(1, 4)
+    a0 = rng.uniform(0, 2 * math.pi)
+    ang = math.radians(rng.uniform(0.5, 8.0)) * rng.choice([-1, 1])
+    d1 = l1 * np.array([math.cos(a0), math.sin(a0)])
+    d2 = l2 * np.array([math.cos(a0 + ang), math.sin(a0 + ang)])
+    spec = {"prim": kind, "var": "x", "origin": [float(o[0]), float(o[1])], "c1": [float(o[0] + d1[0]), float(o[1] + d1[1])],
+            "c2": [float(o[0] + d2[0]), float(o[1] + d2[1])]}
+    rows = {}
+    if k > 0 and rng.random() < 0.5:
+        # the second corner slides along the first edge direction with t: the shear changes, the area does not
+        rows = gen_geo.param_rows(rng, k)
+        spec["c2"] = {"a": spec["c2"], "terms": [{"var": "t", "col": 0, "kind": "lin", "coef": [float(d1[0]), float(d1[1])]}]}
+    node = geo.ref(spec)
+    return {"spec": spec, "rows": rows, "k": len(rows.get("t", [])), "info": {"kind": "prim", "dim": 2, "dep": bool(rows), "relations": ["sliver"],
+                                                                             "desc": node.desc() + "~sliver"}}
 
 
 def _polyhole(rng):
@@ -129,7 +153,7 @@ def _vol(D, Pp, res, mech, what):
     return v.detach().double().numpy()
 
 
-def check_volume(D, node_measure, Pp, k, dep, res, mech, what):
+def check_volume(D, node_measure, Pp, k, dep, res, mech, what, rtol=1e-5):
     """node_measure: (kk,) exact values per row"""
     kk = max(k, 1)
     v = _vol(D, Pp, res, mech, what)
@@ -152,7 +176,7 @@ def check_volume(D, node_measure, Pp, k, dep, res, mech, what):
         res["viol"].append(viol("volume_not_positive", "%s: volume() = %s" % (what, vv.tolist()), cls=type(D).__name__, **mech))
         return
     rel = np.abs(vv - node_measure) / np.maximum(np.abs(node_measure), 1e-12)
-    if (rel > 1e-5).any():
+    if (rel > rtol).any():
         i = int(np.argmax(rel))
         res["viol"].append(viol("volume_wrong", "%s: volume() = %.7g but the measure is %.7g at parameter row %d (relative error %.2g)" %
                                 (what, vv[i], node_measure[i], i, rel[i]), cls=type(D).__name__, **mech))
@@ -274,6 +298,15 @@ def run_case(case):
     m = node.measure(env, kk)
     if wk in ("prim", "flagged", "product", "moved") and m is not None:
         check_volume(D, m, Pp, k, bool(node.free()), res, dict(mech, target="interior"), info["desc"])
+    if wk == "sliver":
+        # float32 evaluation of the determinant loses eps * |d1||d2| / area relative accuracy; anything beyond that is wrong
+        V = node.verts(env, kk)
+        d1, d2 = V[:, 1] - V[:, 0], V[:, -1] - V[:, 0]
+        ratio = float((np.linalg.norm(d1, axis=1) * np.linalg.norm(d2, axis=1) / np.abs(d1[:, 0] * d2[:, 1] - d1[:, 1] * d2[:, 0])).max())
+        coordmag = float(np.abs(V).max() / min(np.linalg.norm(d1, axis=1).min(), np.linalg.norm(d2, axis=1).min()))
+        res["counters"]["sliver_max_ratio"] = max(res["counters"].get("sliver_max_ratio", 0), int(ratio))
+        check_volume(D, m, Pp, k, bool(node.free()), res, dict(mech, target="interior"), info["desc"],
+                     rtol=1e-5 + 16 * 6e-8 * ratio * max(1.0, coordmag))
     if wk == "prim" and spec.get("prim") != "point":
         bnode = geo.ref({"op": "boundary", "d": spec})
         bm = bnode.measure(env, kk)
@@ -293,6 +326,20 @@ def run_case(case):
         try:
             D.set_volume(uv)
             check_volume(D, np.full(kk, uv), Pp, k, False, res, dict(mech, target="user_number"), "user volume on " + info["desc"])
+            if k <= 1 and spec.get("prim") not in ("point", "polygon", "triangle", "polyhedron"):
+                # density sampling must use the user-set volume: exactly ceil(d * user volume) points for primitives
+                for want in (7.3, 41.0):
+                    d_ = want / uv
+                    for fn in ("sample_random_uniform", "sample_grid"):
+                        if fn == "sample_grid" and spec.get("prim") in ("sphere", "parallelogram"):
+                            continue        # their grids are complete lattices with at most that many points (judged elsewhere)
+                        cnt = len(getattr(D, fn)(d=d_, params=Pp))
+                        res["judged"] += 1
+                        res["counters"]["density_after_set_volume"] = res["counters"].get("density_after_set_volume", 0) + 1
+                        if not (math.ceil(want * (1 - 2e-6)) <= cnt <= math.ceil(want * (1 + 2e-6))):
+                            res["viol"].append(viol("density_count", "%s with set_volume(%.4g): %s(d=%.5g) returned %d points, ceil(d * user volume) = %d"
+                                                    % (info["desc"], uv, fn, d_, cnt, math.ceil(want)), fn=fn, call="density_user_volume",
+                                                    **dict(mech, target="user_number")))
             if k > 0:
                 D2 = geo.build(spec)
                 D2.set_volume(lambda t: uv + 0.5 * t)
